@@ -8,7 +8,12 @@ FUNCS = ["cfg_opt_setnint/-float/-bool/-str", "cfg_opt_getval", "cfg_addval", "c
 
 
 def build_obs(tier, tables=None):
-    return api_obs("c09", ["CHK_C09"], ops=("SETN", "WRONGTYPE", "SETLIST", "ADDLIST", "SETMULTI", "ADDTSEC", "RMNSEC", "RMTSEC"), tier=tier)
+    obs = api_obs("c09", ["CHK_C09"], ops=("SETN", "WRONGTYPE", "SETLIST", "ADDLIST", "SETMULTI", "ADDTSEC", "RMNSEC", "RMTSEC"), tier=tier)
+    # removal "by path" = the path resolver's (section option, instance index) answer handed to the removal
+    # by index checked above; the resolver's answer is checked on shaped paths (shared with C11)
+    import props.C11 as C11
+    obs += [o for o in C11.build_obs(tier) if "-fn2-" in o.key]
+    return obs
 
 
 def run(tier, seed):
